@@ -1306,7 +1306,10 @@ class FuncTranslator:
                     if zx > 0:
                         k = (ox + rel) // zx; inner = (ox + rel) % zx
                         pth = s.path_for(Tx, inner, ln, ct)
-                        if pth is not None: return '(%s)[%d]%s' % (V_(bx), k, pth)
+                        # go through a scalar pointer temporary (exactly like an ordinary GEP result): dereferencing the *struct* pointer
+                        # itself makes CBMC fall back to an unconstrained object when the pointee is a type-punned global reached
+                        # with a symbolic index (seen with constant-initialised literal-struct globals)
+                        if pth is not None: return '(*({ %s* p_ = &(%s)[%d]%s; p_; }))' % (ct, V_(bx), k, pth)
                 except Exception:
                     pass
             return '*(%s*)(%s + %d)' % (ct, pexp, rel)
